@@ -4,5 +4,8 @@ import rbql
 def run_case(case):
     rows = [list(r) for r in case['rows']]
     out, warns = [], []
-    rbql.query_table('select like(a1, a2)', rows, out, warns)
+    q = 'select like(a1, a2)'
+    if case.get('literal') is not None:
+        q = 'select like(a1, %s%s%s)' % (case['quote'], case['literal'], case['quote'])
+    rbql.query_table(q, rows, out, warns)
     return [bool(r[0]) for r in out]
